@@ -309,6 +309,8 @@ func (e *Engine) Execute(tr core.Trace, ctx *core.Ctx) {
 			if ctx.Fail(P, "memory", "memory/accepted-"+bad, ev, "segments with %s were accepted", bad) {
 				return
 			}
+		case elfref.Wraps(want):
+			ctx.Probe("block_reaching_end_of_address_space_unjudged")
 		case elfref.Overlap(want):
 			if ctx.Fail(P, "memory", "memory/accepted-overlap", ev, "overlapping loadable segments were accepted") {
 				return
@@ -334,6 +336,8 @@ func (e *Engine) Execute(tr core.Trace, ctx *core.Ctx) {
 			if ctx.Fail(P, "code", "code/accepted-"+bad, ev, "a code section lying outside the file was accepted") {
 				return
 			}
+		case elfref.Wraps(want):
+			ctx.Probe("block_reaching_end_of_address_space_unjudged")
 		case elfref.Overlap(want):
 			if ctx.Fail(P, "code", "code/accepted-overlap", ev, "overlapping code sections were accepted") {
 				return
